@@ -157,6 +157,26 @@ Theorem C08_rebuild_settles : HP_cap_proper -> forall s, Jm noex s -> Kx s ->
 Proof. exact rebuild_settles_from_cap. Qed.
 Print Assumptions C08_rebuild_settles.
 
+(* third session, fifth round (EGraph/TerminationCap{Core,,Rebuild,Chk,Add}.v): the open lemma is PROVED for loop states that carry source
+   coherence (SelfSymDefs.srcok_inv, a reachable invariant): when the subset test of hp_loop fails, the class invocation has a slot that is
+   not public in the source's syntactic node, so the cap computed for the shrink is a PROPER subset and the class really loses a slot.
+   Hence, for every state reached by a history over statically well-formed terms, with NO open hypothesis: every handle_pending round
+   decreases (rank, number of pending entries) lexicographically and `rebuild` SETTLES - there is a fuel from which on its result no longer
+   changes, and the settled result is success (invariants kept, worklist empty) or exhaustion of one of the model's INNER constants. *)
+From SE Require Import EGraph.TerminationCapRebuild.
+Theorem C08_rebuild_settles_for_all_histories : forall terms ops hs s, List.Forall term_static terms ->
+  run_ops terms ops [] empty_egraph = Ok (hs, s) ->
+  exists f, (forall f', (f <= f')%nat -> rebuild f' s = rebuild f s) /\
+    ((exists s', rebuild f s = Ok (tt, s') /\ RI s' /\ pending s' = []) \/ rebuild f s = Err OutOfFuel).
+Proof. exact rebuild_settles_reachable. Qed.
+Print Assumptions C08_rebuild_settles_for_all_histories.
+
+Theorem C08_rebuild_settles_from_the_run_invariant : forall s, RI s ->
+  exists f, (forall f', (f <= f')%nat -> rebuild f' s = rebuild f s) /\
+    ((exists s', rebuild f s = Ok (tt, s') /\ RI s' /\ pending s' = []) \/ rebuild f s = Err OutOfFuel).
+Proof. exact rebuild_settles. Qed.
+Print Assumptions C08_rebuild_settles_from_the_run_invariant.
+
 Definition C08_no_error_full : Prop :=
   forall terms ops, exists hs s, run_ops terms ops [] empty_egraph = Ok (hs, s).
 
